@@ -209,6 +209,59 @@ Theorem c08_monitor_accepts_model : forall mode keys seals env dom kdec,
 Proof. exact monitor_accepts_model_l. Qed.
 Print Assumptions c08_monitor_accepts_model.
 
+(* ---- round 4: what a peerstore hands out as a peer's signed record ---------------------------- *)
+(* "no edit of the serialized form can make a receiver accept different content": the receiver
+   here is the address book reading its own store.  For every ideal scheme and EVERY state of
+   the book - whatever bytes sit in the datastore entry or the cache, edited or not, before or
+   after a restart - GetPeerRecord hands out (k, type, payload) only if the entry's signature was
+   issued by k for exactly (PeerRecordEnvelopeDomain, type, payload) *)
+Theorem c08_peerstore_hands_out_only_sealed :
+  forall (K : Type) (key_dec : N -> bytes -> option K) (verify : K -> bytes -> bytes -> bool)
+         (origin : bytes -> option (K * bytes)),
+  (forall k m s, verify k m s = true <-> origin s = Some (k, m)) ->
+  forall prdom prcodec p b k pt pl b',
+    ps_get K key_dec verify prdom prcodec p b = (Some (k, pt, pl), b') ->
+    exists sq raw e, fst (ps_load p b) = Some (sq, raw) /\
+      unmarshal_envelope K key_dec raw = Some (k, e) /\ pt = e_pt e /\ pl = e_pl e /\
+      origin (e_sg e) = Some (k, make_unsigned prdom pt pl).
+Proof. exact ps_get_only_sealed_l. Qed.
+Print Assumptions c08_peerstore_hands_out_only_sealed.
+
+(* an entry carrying a sealed signature next to another key, type or payload (or sealed for
+   another domain) is not handed out at all *)
+Theorem c08_peerstore_refuses_edited_entry :
+  forall (K : Type) (key_dec : N -> bytes -> option K) (verify : K -> bytes -> bytes -> bool)
+         (origin : bytes -> option (K * bytes)),
+  (forall k m s, verify k m s = true <-> origin s = Some (k, m)) ->
+  forall prdom prcodec p b sq raw k e k0 d0 t0 p0,
+    fst (ps_load p b) = Some (sq, raw) ->
+    unmarshal_envelope K key_dec raw = Some (k, e) -> sealed_with K origin (e_sg e) k0 d0 t0 p0 ->
+    (k <> k0 \/ prdom <> d0 \/ e_pt e <> t0 \/ e_pl e <> p0) ->
+    fst (ps_get K key_dec verify prdom prcodec p b) = None.
+Proof. exact ps_get_edited_is_refused_l. Qed.
+Print Assumptions c08_peerstore_refuses_edited_entry.
+
+(* ConsumeEnvelope + ConsumePeerRecord store a record only when the envelope validates for the
+   peer-record domain and the record's peer ID is the ID of the signing key *)
+Theorem c08_peerstore_stores_under_signers_id :
+  forall (K : Type) (key_dec : N -> bytes -> option K) (verify : K -> bytes -> bytes -> bool)
+         (id_of : K -> bytes) (key_proto : K -> N * bytes) prdom prcodec env b r rid b',
+    ps_consume K key_dec verify id_of key_proto prdom prcodec env b = ((r, 1, rid), b') ->
+    exists k pt pl, r = CAccept k pt pl /\ consume K key_dec verify env prdom = CAccept k pt pl /\
+                    rid = id_of k /\ record_peer_id pl = Some rid.
+Proof. exact ps_consume_stored_id_is_signers_l. Qed.
+Print Assumptions c08_peerstore_stores_under_signers_id.
+
+(* THE monitor of address-book histories (kind 20) accepts every history of the model: every
+   key table, seal table, key decoder, every sequence of consume / get / datastore edit /
+   restart steps, from every initial state of the book *)
+Theorem c08_monitor_accepts_peerstore_model :
+  forall keys seals (kd : N -> bytes -> option Z) prdom prcodec,
+  seals_wf keys seals ->
+  forall ss b, monitor_ops20 keys seals prdom (model_ops20 keys seals kd prdom prcodec ss b) = [].
+Proof. exact monitor_accepts_peerstore_model_l. Qed.
+Print Assumptions c08_monitor_accepts_peerstore_model.
+
 (* ---- regenerated constants ----------------------------------------------------------------------- *)
 (* specification: keys of at most 42 marshalled bytes are inlined, and inlining
    is on.  Ed25519 (36 bytes) and secp256k1 (37) are inlined; ECDSA P-256 (95)
@@ -426,4 +479,43 @@ Example repaired_reader_rejects_inconsistent_halves :
 Proof. vm_compute. reflexivity. Qed.
 Example repaired_reader_accepts_consistent_halves :
   ed25519_priv_parts (fun _ => repeat 1 32) (repeat 0 32 ++ repeat 1 32) = Some (repeat 0 32, repeat 1 32).
+Proof. vm_compute. reflexivity. Qed.
+
+(* round 4: a toy address book.  Key 1 (data [9], ID [0;1;9]) sealed the peer record
+   payload [10;3;0;1;9] (peer_id = [0;1;9]) for domain [100] with signature value [7] *)
+Definition toy4_origin (s : bytes) : option (N * bytes) :=
+  if bytes_eqb s [7] then Some (1, make_unsigned [100] [3; 1] [10; 3; 0; 1; 9]) else None.
+Definition toy4_verify (k : N) (m s : bytes) : bool :=
+  match toy4_origin s with Some (k', m') => (k =? k') && bytes_eqb m m' | None => false end.
+Definition toy4_book (payload : bytes) : book :=
+  mkBook false [([0; 1; 9], (0, marshal_envelope (mkEnv 1 [9] [3; 1] payload [7])))] [].
+(* the stored envelope as sealed is handed out ... *)
+Example toy_book_hands_out_sealed :
+  fst (ps_get N toy_key_dec toy4_verify [100] [3; 1] [0; 1; 9] (toy4_book [10; 3; 0; 1; 9]))
+  = Some (1, [3; 1], [10; 3; 0; 1; 9]).
+Proof. vm_compute. reflexivity. Qed.
+(* ... the entry with an edited payload (an appended seq field) is not ... *)
+Example toy_book_refuses_edited_payload :
+  fst (ps_get N toy_key_dec toy4_verify [100] [3; 1] [0; 1; 9] (toy4_book [10; 3; 0; 1; 9; 16; 5])) = None.
+Proof. vm_compute. reflexivity. Qed.
+(* ... while a reader that only parses the stored bytes (UnmarshalEnvelope instead of
+   ConsumeEnvelope) hands out the edited payload as the peer's signed record *)
+Definition ps_get_unvalidated (p : bytes) (b : book) : option (N * bytes * bytes) :=
+  match fst (ps_load p b) with
+  | Some (_, raw) =>
+      match unmarshal_envelope N toy_key_dec raw with Some (k, e) => Some (k, e_pt e, e_pl e) | None => None end
+  | None => None
+  end.
+Example unvalidated_reader_hands_out_edited_payload :
+  ps_get_unvalidated [0; 1; 9] (toy4_book [10; 3; 0; 1; 9; 16; 5]) = Some (1, [3; 1], [10; 3; 0; 1; 9; 16; 5]).
+Proof. vm_compute. reflexivity. Qed.
+(* the monitor rejects a history in which GetPeerRecord returned a payload nobody sealed, and
+   accepts the one in which it returned the sealed payload *)
+Example monitor_rejects_unsealed_record_from_store :
+  monitor_case [20; 1; 1;100; 2;3;1;  1; 1; 1;9; 1;8; 0; 1;77;  1; 0; 1;100; 2;3;1; 1;5; 1;7;  0;
+                1;  2; 1;77; 1; 1;8; 2;3;1; 1;6; 1;77; 0]%Z = [ERR_PROPERTY; 203]%Z.
+Proof. vm_compute. reflexivity. Qed.
+Example monitor_accepts_sealed_record_from_store :
+  monitor_case [20; 1; 1;100; 2;3;1;  1; 1; 1;9; 1;8; 0; 1;77;  1; 0; 1;100; 2;3;1; 1;5; 1;7;  0;
+                1;  2; 1;77; 1; 1;8; 2;3;1; 1;5; 1;77; 1]%Z = [].
 Proof. vm_compute. reflexivity. Qed.
